@@ -461,14 +461,16 @@ theorem mem_canaryLabelAdds {sp : StratParams} {name : String} (h : name ∈ can
   · cases hf
 
 /-- **Label scope.**  The canary label is only ever added to / removed from pods carrying this
-replica set's name label; it is added only in the canary role and removed only in the active role. -/
+replica set's name label (for a removal also the EDS's name label); it is added only in the canary
+role and removed only in the active role. -/
 theorem C04_label_scope (h : ersOwner rs st = some d) :
     (∀ name ∈ (reconcileErs rs st released aff now).labelAdds,
       ∃ p ∈ ersPods d st, p.name = name ∧ SMap.get? p.labels K.ersNameLabel = some rs.name ∧
         ∃ n ∈ ersCanaryNodes d, p.nodeOf = some n) ∧
     (∀ name ∈ (reconcileErs rs st released aff now).labelRemoves,
       ∃ p ∈ st.pods, p.name = name ∧ p.ns = rs.ns ∧ SMap.get? p.labels K.ersNameLabel = some rs.name ∧
-        SMap.get? p.labels K.canaryLabel = some "true") ∧
+        SMap.get? p.labels K.canaryLabel = some "true" ∧
+        SMap.get? p.labels K.edsNameLabel = some d.name) ∧
     (ersRole d rs.name ≠ "canary" → (reconcileErs rs st released aff now).labelAdds = []) ∧
     (ersRole d rs.name ≠ "active" → (reconcileErs rs st released aff now).labelRemoves = []) := by
   rcases reconcileErs_cases rs st released aff now d h with hno | ⟨items, r, adds, removes, se, st0, F⟩
@@ -484,8 +486,8 @@ theorem C04_label_scope (h : ersOwner rs st = some d) :
       rw [hrem] at hn
       split at hn
       · obtain ⟨p, hp, rfl⟩ := List.mem_map.mp hn
-        obtain ⟨a, b, c, e⟩ := mem_canaryLabelled.mp hp
-        exact ⟨p, a, rfl, b, e, c⟩
+        obtain ⟨a, b, c, e, f⟩ := mem_canaryLabelled.mp hp
+        exact ⟨p, a, rfl, b, e, c, f⟩
       · cases hn
     · rw [hr] at hs
       obtain ⟨r0, -, -, hadds, hrem, -⟩ := ersStrategy_canary hs
@@ -564,21 +566,24 @@ theorem C04_label_on (h : ersOwner rs st = some d) (hr : ersRole d rs.name = "ca
   simp only [hcond, if_true]
 
 /-- **Label off.**  In a full active sync within five minutes of the rolling update's start, every
-pod of the namespace carrying this replica set's name label and the canary label is unlabelled. -/
+pod of the namespace carrying the EDS's name label, this replica set's name label and the canary
+label is unlabelled.  (The EDS-label requirement is the repaired list selector of the clean-up; it
+is what makes `C12_ers_writes_owned` hold for `labelRemoves`.) -/
 theorem C04_label_off (h : ersOwner rs st = some d) (hr : ersRole d rs.name = "active")
     (hd : isDefaulted d.strategy d.templateName = true) (hg : ersGated d rs now = false)
     (he : (reconcileErs rs st released aff now).earlyErr = false)
     (ht : now - rollingUpdateStartTime rs.status now < 5 * minute)
     (p : Pod) (hp : p ∈ st.pods) (hns : p.ns = rs.ns)
     (hcl : SMap.get? p.labels K.canaryLabel = some "true")
-    (hers : SMap.get? p.labels K.ersNameLabel = some rs.name) :
+    (hers : SMap.get? p.labels K.ersNameLabel = some rs.name)
+    (heds : SMap.get? p.labels K.edsNameLabel = some d.name) :
     p.name ∈ (reconcileErs rs st released aff now).labelRemoves := by
   obtain ⟨items, r, adds, removes, se, st0, F⟩ := reconcileErs_full rs st released aff now d h hd hg he
   have hs := F.strat
   rw [hr] at hs
   obtain ⟨-, -, hrem, -⟩ := ersStrategy_active hs F.status
   rw [F.eq, ersFinish_labelRemoves, hrem, if_pos ht]
-  exact List.mem_map.mpr ⟨p, mem_canaryLabelled.mpr ⟨hp, hns, hcl, hers⟩, rfl⟩
+  exact List.mem_map.mpr ⟨p, mem_canaryLabelled.mpr ⟨hp, hns, hcl, hers, heds⟩, rfl⟩
 
 /-- … in terms of the stored Active condition: it is True and its last transition is less than five
 minutes old (or the condition is absent / not True: the rolling update starts now). -/
@@ -589,9 +594,10 @@ theorem C04_label_off_cond (h : ersOwner rs st = some d) (hr : ersRole d rs.name
           now - c.lastTransition < 5 * minute)
     (p : Pod) (hp : p ∈ st.pods) (hns : p.ns = rs.ns)
     (hcl : SMap.get? p.labels K.canaryLabel = some "true")
-    (hers : SMap.get? p.labels K.ersNameLabel = some rs.name) :
+    (hers : SMap.get? p.labels K.ersNameLabel = some rs.name)
+    (heds : SMap.get? p.labels K.edsNameLabel = some d.name) :
     p.name ∈ (reconcileErs rs st released aff now).labelRemoves := by
-  refine C04_label_off rs st released aff now d h hr hd hg he ?_ p hp hns hcl hers
+  refine C04_label_off rs st released aff now d h hr hd hg he ?_ p hp hns hcl hers heds
   unfold rollingUpdateStartTime
   split
   · rename_i c hc
